@@ -143,7 +143,7 @@ def cond_polarity_fix(machine, env):
     return env
 
 
-def gen_case(rng, malformed=False, hist_len=None, may=False, p_unknown=0.1, p_build=0.0, p_self=0.0):
+def gen_case(rng, malformed=False, hist_len=None, may=False, p_unknown=0.1, p_build=0.0, p_self=0.0, p_multi=0.0):
     g = Gen(rng, malformed=malformed)
     m = g.machine()
     env = cond_polarity_fix(m, g.env())
@@ -156,6 +156,30 @@ def gen_case(rng, malformed=False, hist_len=None, may=False, p_unknown=0.1, p_bu
         k = rng.choice([0, 0, 2]) if not may else rng.choice([0, 1, 1])
         hist.append((k, e, 100 + i))
     out = dict(machine=m, env=env, model=0, init=rng.randrange(ns), history=hist, cls='Machine')
+    if p_multi and rng.random() < p_multi:
+        # one more event whose transitions are created by ONE add_transition call with several sources ('*' or a list)
+        # and shared option lists, plus callbacks registered afterwards for the whole event with
+        # machine.before_<event>(cb) / after_<event>(cb) / prepare_<event>(cb): every transition of the event gets them
+        # once, after the ones it was created with
+        e_new = 1 + max([e for e, _ in m['events']] + [0])
+        srcs = None if rng.random() < 0.5 else rng.sample(range(ns), rng.randint(1, ns))
+        dst = rng.randrange(ns)
+        gcb = [900 + 10 * e_new]
+
+        def fresh(k):
+            outl = []
+            for _ in range(k):
+                gcb[0] += 1
+                outl.append(gcb[0])
+            return outl
+        base = dict(prepare=fresh(rng.choice([0, 1])), before=fresh(rng.choice([0, 1, 2])), after=fresh(rng.choice([1, 2])))
+        late = dict(prepare=fresh(rng.choice([0, 1])), before=fresh(rng.choice([0, 1])), after=fresh(rng.choice([1, 1, 2])))
+        ts = [dict(src=sx, dst=dst, prepare=base['prepare'] + late['prepare'], conds=[],
+                   before=base['before'] + late['before'], after=base['after'] + late['after'])
+              for sx in (range(ns) if srcs is None else srcs)]
+        m['events'].append((e_new, ts))
+        out['multi'] = dict(event=e_new, sources=srcs, dst=dst, base=base, late=late)
+        out['history'] = [(k, (e_new if rng.random() < 0.4 else e), a) for (k, e, a) in hist] + [(0, e_new, 190), (0, e_new, 191)]
     if p_self and rng.random() < p_self:
         out['self_model'] = 1               # the machine is its own model
     if p_build and rng.random() < p_build:
@@ -505,7 +529,17 @@ def build_machine(case, world, cls=None, model=None, extra_kwargs=None, models=N
         for cb in exi:
             machine.on_exit(name, cb) if use_method else getattr(machine, 'on_exit_' + name)(cb)
     od = case.get('ordered')
+    mu = case.get('multi')
     for e, ts in m['events']:
+        if mu is not None and mu['event'] == e:
+            machine.add_transition('e%d' % e, '*' if mu['sources'] is None else ['s%d' % x for x in mu['sources']],
+                                   's%d' % mu['dst'], prepare=[R('prepare', c) for c in mu['base']['prepare']],
+                                   before=[R('before', c) for c in mu['base']['before']],
+                                   after=[R('after', c) for c in mu['base']['after']])
+            for kind in ('prepare', 'before', 'after'):
+                for c in mu['late'][kind]:
+                    getattr(machine, '%s_e%d' % (kind, e))(R(kind, c))
+            continue
         if od is not None and od['event'] == e:
             # the transitions of this event are what add_ordered_transitions is documented to create
             # (gen_ordered_case computed them); the library creates them from per-position option lists
